@@ -1,8 +1,250 @@
 import Req.Driver.Proto
+import Req.C02.RespSM
+import Req.C02.H1Body
+import Req.C02.H1Msg
+import Req.C02.H3Recv
+import Req.C02.H2Recv
 /-! Driver lanes of C02. -/
 namespace Req.Driver.L.C02
-open Req.Proto
+open Req.Proto Req.C02
 
-def lanes : List (String × (List String → String)) := []
+def rerrStr : RErr → String
+  | .ok => "ok" | .eof => "eof" | .fail => "fail" | .closed => "closed"
+
+def parseFin : String → Option Fin
+  | "eof" => some .eof
+  | "fail" => some .fail
+  | _ => none
+
+def parseBool01 : Char → Option Bool
+  | '0' => some false
+  | '1' => some true
+  | _ => none
+
+/-- `c<0|1>r<0|1>s<0|1>j<0|1>` -/
+def parseCfg (s : String) : Option Cfg :=
+  match s.toList with
+  | ['c', a, 'r', b, 's', c, 'j', d] => do
+    let a ← parseBool01 a; let b ← parseBool01 b; let c ← parseBool01 c; let d ← parseBool01 d
+    pure { clientDisable := a, reqDisable := b, save := c, result := d }
+  | _ => none
+
+def parseOp (s : String) : Option Op :=
+  match s with
+  | "tb" => some .toBytes
+  | "ts" => some .toString
+  | "by" => some .bytes
+  | "st" => some .string
+  | "ra" => some .readAll
+  | "cl" => some .close
+  | _ =>
+    if s.startsWith "rd" then (s.drop 2).toNat?.map Op.read else none
+
+def parseOps (s : String) : Option (List Op) :=
+  if s == "-" then some [] else (s.splitOn ",").mapM parseOp
+
+def obsStr : Obs → String
+  | .data bs e => encodeHex bs ++ "/" ++ rerrStr e
+  | .cached none => "nil"
+  | .cached (some c) => encodeHex c
+  | .str bs => encodeHex bs
+  | .unit => "."
+
+def optStr : Option Bytes → String
+  | none => "nil"
+  | some b => encodeHex b
+
+/-- `c02ops <cfg> <status> <chunks> <fin> <ops>` →
+`err=<e> out=<hex|nil> obs=<o;o;…>` -/
+def laneOps : List String → String
+  | [cfg, status, chunks, fin, ops] =>
+    match parseCfg cfg, status.toNat?, decodeList chunks, parseFin fin, parseOps ops with
+    | some cfg, some st, some cks, some fin, some ops =>
+      let r := afterRoundTrip cfg st (Body.transport cks fin)
+      let e0 := match r.err with | none => "ok" | some e => rerrStr e
+      let (obs, _) := r.run ops
+      "err=" ++ e0 ++ " out=" ++ optStr r.out ++ " obs=" ++
+        (if obs.isEmpty then "-" else ";".intercalate (obs.map fun x => obsStr x.2))
+    | _, _, _, _, _ => "bad-op"
+  | _ => "bad-op"
+
+/-! ### shared canonical forms -/
+
+def bytesLe : Bytes → Bytes → Bool
+  | [], _ => true
+  | _ :: _, [] => false
+  | a :: as, b :: bs => if a < b then true else if b < a then false else bytesLe as bs
+
+def insKV (x : Bytes × Bytes) : List (Bytes × Bytes) → List (Bytes × Bytes)
+  | [] => [x]
+  | y :: ys => if bytesLe y.1 x.1 then y :: insKV x ys else x :: y :: ys
+
+/-- stable sort by key -/
+def sortKV (l : List (Bytes × Bytes)) : List (Bytes × Bytes) := l.foldl (fun acc x => insKV x acc) []
+
+def kvStr (l : List (Bytes × Bytes)) : String :=
+  if l.isEmpty then "-" else
+  ",".intercalate ((sortKV l).map fun (k, v) => encodeHex k ++ ":" ++ encodeHex v)
+
+def ioErrStr : Option IOErr → String
+  | none => "ok"
+  | some .eof => "eof" | some .reset => "reset" | some .unexpectedEOF => "unexpectedEOF"
+  | some .bufferFull => "bufferFull" | some .malformedChunk => "malformedChunk"
+  | some .lineTooLong => "lineTooLong" | some .invalidChunkLen => "invalidChunkLen"
+  | some .chunkTooLarge => "chunkTooLarge" | some .trailerEOF => "trailerEOF"
+  | some .longTrailer => "longTrailer" | some .badTrailer => "badTrailer"
+  | some .readAfterClose => "readAfterClose" | some .stuck => "stuck"
+
+def parseNetEnd : String → Option NetEnd
+  | "eof" => some .eof
+  | "reset" => some .reset
+  | _ => none
+
+def parseFraming (s : String) : Option Framing :=
+  if s == "chunked" then some .chunked
+  else if s == "close" then some .close
+  else if s.startsWith "len:" then (s.drop 4).toNat?.map Framing.length
+  else none
+
+/-- `c02h1body <framing> <cap> <segs> <fin> <reads>` →
+`n=<len,len,…> err=<e> data=<hex> trailer=<kv> rem=<unread wire bytes>` -/
+def laneH1Body : List String → String
+  | [fr, cap, segs, fin, reads] =>
+    match parseFraming fr, cap.toNat?, decodeList segs, parseNetEnd fin, decodeNatList reads with
+    | some fr, some cap, some segs, some fin, some reads =>
+      let bd := H1Body.new fr (Bufio.new cap { segs := segs, fin := fin })
+      let (rs, bd') := bd.runReads reads
+      let lastErr := lastErr rs
+      "n=" ++ encodeNatList (rs.map fun (d, _) => d.length) ++ " err=" ++ ioErrStr lastErr ++
+        " data=" ++ encodeHex (outBytes rs) ++
+        " trailer=" ++ kvStr (match bd'.trailer with | some t => t | none => []) ++
+        " rem=" ++ (if lastErr == some .badTrailer then "?" else toString bd'.br.rem.length)
+    | _, _, _, _, _ => "bad-op"
+  | _ => "bad-op"
+
+def h1ErrStr : H1Err → String
+  | .truncatedHead => "truncatedHead" | .unsupported => "unsupported" | .tooMany1xx => "tooMany1xx"
+  | .badContentLength => "badContentLength" | .unsupportedTE => "unsupportedTE"
+  | .body e => "body:" ++ ioErrStr (some e)
+
+/-- the fields the e2e lanes compare: `X-…` and `Content-Type` -/
+def keepField (kv : Bytes × Bytes) : Bool :=
+  kv.1.take 2 == [88, 45] || kv.1 == [67, 111, 110, 116, 101, 110, 116, 45, 84, 121, 112, 101]
+
+def viewStr (v : View) : String :=
+  "status=" ++ toString v.status ++ " hdr=" ++ kvStr (v.fields.filter keepField) ++
+    " trailer=" ++ kvStr v.trailer ++ " body=" ++ encodeHex v.body ++ " end=" ++ ioErrStr v.bodyErr
+
+/-- `c02h1msg <head 0|1> <fin> <wire>` → view of the caller -/
+def laneH1Msg : List String → String
+  | [hd, fin, wire] =>
+    match hd.toList, parseNetEnd fin, decodeHex wire with
+    | [c], some fin, some w =>
+      match parseBool01 c with
+      | none => "bad-op"
+      | some isHead =>
+        match parseResponseTop isHead fin w with
+        | .ok v => viewStr v
+        | .error e => "error:" ++ h1ErrStr e
+    | _, _, _ => "bad-op"
+  | _ => "bad-op"
+
+def h3ErrStr : Option H3Err → String
+  | none => "ok"
+  | some .eof => "eof" | some .reset => "reset" | some .unexpectedEOF => "unexpectedEOF"
+  | some .frameUnexpected => "frameUnexpected" | some .firstNotHeaders => "firstNotHeaders"
+  | some .headersTooLarge => "headersTooLarge" | some .dataAfterTrailers => "dataAfterTrailers"
+  | some .headersAfterTrailers => "headersAfterTrailers" | some .tooMuchData => "tooMuchData"
+  | some .invalidFields => "invalidFields" | some .tooMany1xx => "tooMany1xx"
+  | some .noFieldList => "noFieldList" | some .stuck => "stuck"
+
+def decodeKV (s : String) : Option (Bytes × Bytes) :=
+  match s.splitOn ":" with
+  | [k, v] => do let k ← decodeHex k; let v ← decodeHex v; pure (k, v)
+  | _ => none
+
+def decodeFields (s : String) : Option (List (Bytes × Bytes)) :=
+  if s == "-" then some [] else (s.splitOn ",").mapM decodeKV
+
+def decodeFieldLists (s : String) : Option (List (List (Bytes × Bytes))) :=
+  if s == "none" then some [] else (s.splitOn "/").mapM decodeFields
+
+/-- `c02h3recv <head 0|1> <segs> <fin> <fieldlists> <maxHeaderBytes> <reads>` →
+`status=… hdr=… n=… err=… data=… trailer=…` or `error:<e>` -/
+def laneH3Recv : List String → String
+  | [hd, segs, fin, fls, maxh, reads] =>
+    match (match hd.toList with | [c] => parseBool01 c | _ => none),
+          decodeList segs, parseNetEnd fin, decodeFieldLists fls, maxh.toNat?, decodeNatList reads with
+    | some isHead, some segs, some fin, some fls, some maxh, some reads =>
+      let s0 : H3Stream := { net := { segs := segs, fin := fin }, remInFrame := 0, parsedTrailer := false,
+                             trailer := none, fieldLists := fls, maxHeaderBytes := maxh }
+      match s0.readFinalResponse 7 0 with
+      | (.error e, _) => "error:" ++ h3ErrStr (some e)
+      | (.ok h, s1) =>
+        let (rs, b') := (H3Body.new isHead h s1).runReads reads
+        let lastErr := lastErr rs
+        "status=" ++ toString h.status ++ " hdr=" ++ kvStr h.fields ++
+          " n=" ++ encodeNatList (rs.map fun (d, _) => d.length) ++ " err=" ++ h3ErrStr lastErr ++
+          " data=" ++ encodeHex (outBytes rs) ++
+          " trailer=" ++ kvStr (match b'.str.trailer with | some t => t | none => [])
+    | _, _, _, _, _, _ => "bad-op"
+  | _ => "bad-op"
+
+def h2ErrStr : Option H2Err → String
+  | none => "ok"
+  | some .eof => "eof" | some .unexpectedEOF => "unexpectedEOF" | some .overDeclared => "overDeclared"
+  | some .streamProto => "streamProto" | some .connProto => "connProto" | some .rst => "rst"
+  | some .closedBody => "closedBody" | some .pipeWrite => "pipeWrite"
+
+/-- event: `H;<es 0|1>;<fields>` | `D;<es>;<padded 0|1>;<hex>` | `R` -/
+def decodeH2Ev (s : String) : Option H2Ev :=
+  match s.splitOn ";" with
+  | ["H", es, fs] => do
+    let es ← (match es.toList with | [c] => parseBool01 c | _ => none)
+    let fs ← decodeFields fs
+    pure (.headers fs es)
+  | ["D", es, pad, d] => do
+    let es ← (match es.toList with | [c] => parseBool01 c | _ => none)
+    let pad ← (match pad.toList with | [c] => parseBool01 c | _ => none)
+    let d ← decodeHex d
+    pure (.data d pad es)
+  | ["R"] => some .rst
+  | _ => none
+
+def decodeH2Evs (s : String) : Option (List H2Ev) :=
+  if s == "none" then some [] else (s.splitOn "/").mapM decodeH2Ev
+
+/-- `c02h2recv <head 0|1> <events> <reads>`: all frames are delivered, then the caller reads.
+→ `error:<e>` (RoundTrip failed) or `status=… hdr=… err=… data=… trailer=…` -/
+def laneH2Recv : List String → String
+  | [hd, evs, reads] =>
+    match hd.toList, decodeH2Evs evs, decodeNatList reads with
+    | [c], some evs, some reads =>
+      match parseBool01 c with
+      | none => "bad-op"
+      | some isHead =>
+        let s := evs.foldl (fun s e => s.event e) (H2Stream.init isHead)
+        match s.res with
+        | none => "error:" ++ h2ErrStr (match s.headErr with | some e => some e | none => some .connProto)
+        | some res =>
+          let (data, err, tr) :=
+            match res.body with
+            | .piped =>
+              let (rs, s') := s.runReads reads
+              let lastErr := match rs.getLast? with | some (_, e) => e | none => none
+              ((rs.map (·.1)).flatten, lastErr, s'.resTrailer)
+            | k => ([], (if reads.isEmpty then none else k.readFixed), s.resTrailer)
+          "status=" ++ toString res.status ++ " hdr=" ++ kvStr (res.fields.filter keepField) ++
+            " err=" ++ h2ErrStr err ++ " data=" ++ encodeHex data ++ " trailer=" ++ kvStr tr
+    | _, _, _ => "bad-op"
+  | _ => "bad-op"
+
+def lanes : List (String × (List String → String)) := [
+  ("c02ops", laneOps),
+  ("c02h2recv", laneH2Recv),
+  ("c02h3recv", laneH3Recv),
+  ("c02h1msg", laneH1Msg),
+  ("c02h1body", laneH1Body)
+]
 
 end Req.Driver.L.C02
